@@ -958,4 +958,49 @@ theorem Inv.monitor {p : Bool} {n0 : Nat} {s : State} (h : Inv p n0 s) : Monitor
   obtain ⟨m, hI⟩ := h
   simp [MonitorC02, hI.run]
 
+/-! ### the entry points respect the lock discipline -/
+
+theorem wfTo_queueForSend (sess p : Bool) :
+    wfTo sess p ⟨.free, .none⟩ (prog_queueForSend p) = some ⟨.free, .none⟩ := by
+  cases sess <;> cases p <;> rfl
+
+theorem wfTo_appProg (p : Bool) (k : Nat) :
+    wfTo false p ⟨.free, .none⟩ (appProg p k) = some ⟨.free, .none⟩ := by
+  induction k with
+  | zero => rfl
+  | succ k ih =>
+    simp only [appProg, wfTo_append, wfTo_queueForSend false p, Option.bind_some, ih]
+
+theorem wfTo_ebs (p l : Bool) (n : Nat) (lim : Option Nat) (r : RM) :
+    wfTo true p ⟨.free, r⟩ (prog_enqueueBytesAndSend l n lim) = some ⟨.free, r⟩ := by
+  cases l <;> simp [prog_enqueueBytesAndSend, wfTo, wfStep]
+
+theorem wfTo_items (p : Bool) (items : List Item) :
+    wfTo true p ⟨.free, .write⟩ (items.flatMap (fun it => prog_enqueueBytesAndSend it.loggedOn it.num it.lim))
+      = some ⟨.free, .write⟩ := by
+  induction items with
+  | nil => rfl
+  | cons it items ih => simp only [List.flatMap_cons, wfTo_append, wfTo_ebs, Option.bind_some, ih]
+
+theorem wfTo_scall (p : Bool) (c : SCall) :
+    wfTo true p ⟨.free, .none⟩ (c.prog p) = some ⟨.free, .none⟩ := by
+  cases c with
+  | queueForSend => exact wfTo_queueForSend true p
+  | sendInReplyTo lim => cases p <;> simp [SCall.prog, prog_sendInReplyTo, prog_prep, wfTo, wfStep]
+  | dropAndSendInReplyTo reset lim =>
+    cases p <;> cases reset <;> simp [SCall.prog, prog_dropAndSendInReplyTo, prog_prep, wfTo, wfStep]
+  | sendAppMessages l lim => cases l <;> simp [SCall.prog, prog_sendAppMessages, wfTo, wfStep]
+  | dropAndReset => simp [SCall.prog, prog_dropAndReset, wfTo, wfStep]
+  | enqueueBytesAndSend l n lim => exact wfTo_ebs p l n lim .none
+  | resendMessages items =>
+    simp only [SCall.prog, prog_resendMessages, wfTo_append]
+    simp [wfTo, wfStep, wfTo_items]
+
+theorem wfTo_sess (p : Bool) (calls : List SCall) :
+    wfTo true p ⟨.free, .none⟩ (calls.flatMap (SCall.prog p)) = some ⟨.free, .none⟩ := by
+  induction calls with
+  | nil => rfl
+  | cons c cs ih => simp only [List.flatMap_cons, wfTo_append, wfTo_scall, Option.bind_some, ih]
+
+
 end Qfx.Conc
